@@ -809,3 +809,110 @@ def fam_ldperm(g, prop, count, types, exhaustive3=False):
             lst.append({"id": "%s-ldperm%s%s-%05d-%s" % (prop, tag, "f" if fl else "", i, ty), "lines": lines, "n": n})
         out[ty] = lst
     return out
+
+
+# ----------------------------------------------------------------------------- C16
+import struct, os
+import iowrite
+
+
+def f32(x):
+    return struct.unpack("f", struct.pack("f", x))[0]
+
+
+def fam_readers(g, prop, count, types, outdir):
+    """(matrix, encoding) pairs rendered as HB / RB / MM / triplet files and read back; general and symmetric storage,
+    with and without diagonal entries, any entry order in coordinate files, several edit descriptors"""
+    os.makedirs(outdir, exist_ok=True)
+    out = {}
+    for ty, k in split_types(count, types).items():
+        cplx = is_cplx(ty)
+        single = ty in ("s", "c")
+        lst = []
+        for i in range(k):
+            r = g.r
+            n = r.randint(1, 7)
+            fmt = r.choice(["mm", "mm", "hb", "hb", "rb", "triple"] + (["triple_noheader"] if ty == "d" else []))
+            sym = fmt in ("mm", "hb", "rb") and r.random() < 0.5
+            dens = r.uniform(0.2, 0.9)
+            pos = [(a, b) for a in range(n) for b in range(n) if (a >= b or not sym) and r.random() < dens]
+            if sym and r.random() < 0.6:      # symmetric storage without (some) diagonal entries
+                drop = r.random()
+                pos = [p for p in pos if p[0] != p[1] or r.random() > drop]
+            if not pos:
+                pos = [(n - 1, 0)]
+            style = r.choice(["dyadic", "decimal"])
+
+            def rv():
+                v = float(r.choice([1, -1, 2, 0.5, -3, 4, 0.25, 7, -0.125])) if style == "dyadic" else r.uniform(-9, 9) * 10 ** r.randint(-4, 4)
+                return f32(v) if single else v
+            vals = {p: (rv(), rv() if cplx else 0.0) for p in pos}
+            path = os.path.join(outdir, "%s_%s_%05d.%s" % (prop, ty, i, fmt))
+            stored = []       # (i, j, re, im) exactly as parsed back from the literals written
+            if fmt in ("hb", "rb"):
+                cols = sorted(pos, key=lambda p: (p[1], p[0]))
+                colptr = [0]; rowind = []; flat = []
+                for c in range(n):
+                    for p in [q for q in cols if q[1] == c]:
+                        rowind.append(p[0]); flat.append(vals[p][0])
+                        if cplx:
+                            flat.append(vals[p][1])
+                    colptr.append(len(rowind))
+                kind = r.choice(["E", "E", "D", "F"])
+                digits = 8 if single else r.choice([16, 17])
+                if kind == "F":
+                    digits = r.choice([6, 10])
+                vw = digits + r.choice([8, 9, 10]) if kind != "F" else digits + r.choice([9, 12])
+                vn = max(1, min(80 // vw, r.choice([1, 2, 3, 4])))
+                iw = r.choice([3, 4, 8]); pw = r.choice([3, 5, 8])
+                enc = {"pw": pw, "pn": max(1, min(80 // pw, r.choice([4, 10, 16]))), "iw": iw, "in": max(1, min(80 // iw, r.choice([5, 10, 20]))),
+                       "vw": vw, "vn": vn, "vd": digits, "kind": kind, "scale": r.choice([None, None, 1]) if kind != "F" else None, "rhs": r.random() < 0.3}
+                if not iowrite.write_hb(path, n, colptr, rowind, flat, cplx, sym, enc, rb=(fmt == "rb")):
+                    continue
+                # what the literals mean: re-read them the way a correct reader must
+                lits = []
+                for v in flat:
+                    s_ = iowrite.fnum_f(v, vw, digits) if kind == "F" else iowrite.fnum_e(v, vw, digits, kind)
+                    lits.append(float(s_.replace("D", "E")))
+                it = iter(lits)
+                for c in range(n):
+                    for q in range(colptr[c], colptr[c + 1]):
+                        re = next(it); im = next(it) if cplx else 0.0
+                        stored.append((rowind[q], c, re, im))
+            else:
+                order = list(pos); r.shuffle(order)
+                digits = 8 if single else 17
+                ents = []
+                for p in order:
+                    re = float("%.*e" % (digits, vals[p][0])); im = float("%.*e" % (digits, vals[p][1]))
+                    ents.append((p[0], p[1], re, im))
+                if fmt == "mm":
+                    iowrite.write_mm(path, n, ents, cplx, sym, comments=r.randint(0, 3), digits=digits)
+                else:
+                    base = r.choice([0, 1])
+                    if base == 0:      # zero-based files are recognised by a zero index in the first entry
+                        z = [e for e in ents if e[0] == 0 or e[1] == 0]
+                        if not z:
+                            base = 1
+                        else:
+                            ents.remove(z[0]); ents.insert(0, z[0])
+                    iowrite.write_triplet(path, n, ents, cplx, base=base, header=(fmt == "triple"), digits=digits)
+                stored = ents
+            if fmt == "triple_noheader":
+                # dimension is inferred from the largest index
+                nn = max(max(e[0], e[1]) for e in stored) + 1
+            else:
+                nn = n
+            full = {}
+            for (a, b, re, im) in stored:
+                full[(a, b)] = (re, im)
+                if sym:
+                    full[(b, a)] = (re, im)
+            exp = sorted(full.items(), key=lambda kv: (kv[0][1], kv[0][0]))
+            lines = ["expect %d %d" % (nn, len(exp)),
+                     " ".join("%d %d %s" % (a, b, hx(v[0]) + ((" " + hx(v[1])) if cplx else "")) for (a, b), v in exp),
+                     "call read %s %s" % (fmt, path)]
+            fam = "read%s%s" % (fmt.replace("_", ""), "sym" if sym else "")
+            lst.append({"id": "%s-%s-%05d-%s" % (prop, fam, i, ty), "lines": lines, "n": n})
+        out[ty] = lst
+    return out
